@@ -341,6 +341,36 @@ def more_foveation(ctx):
                     ctx.violation('RadiallyVaryingBlur.blur(%s, equi=%s) %s' % (mode, equi, text), rec,
                                   {'fn': 'blur', 'what': what, 'final_mip': mip, 'equi': equi, 'mode': mode})
 
+    # ---------------- ONE blur object, a gaze that moves over a lattice (whole and half units, both signs, there and back): every result is the one
+    # a new object gives for that gaze, and the gaze pixel stays sharp
+    from odak.learn.perception.radially_varying_blur import RadiallyVaryingBlur
+    for equi in (True, False):
+        for mode in ('quadratic',) if ctx.quick else ('quadratic', 'linear'):
+            h, w = (32, 64)
+            g = torch.Generator().manual_seed(ctx.seed + 5)
+            img = torch.rand(1, 3, h, w, generator=g)
+            obj = RadiallyVaryingBlur()
+            if equi:
+                lattice = [[float(y), float(p)] for p in (0, -1, 1) for y in (-3, -2, -1, 0, 1, 2, 3, 2, 1, 0, -1, -2, -3)] + \
+                          [[y / 2.0, p / 2.0] for p in (-1, 1) for y in (-5, -3, -1, 1, 3, 5)]
+            else:
+                lattice = [[x / 4.0, y / 4.0] for y in (0, 2, 4) for x in (0, 1, 2, 3, 4, 3, 2, 1, 0)] + [[1.0, 0.0], [0.0, 1.0], [1, 1], [0, 0], [1, 0]]
+            for centre in lattice:
+                ctx.case(('blur_moving_gaze', equi, mode, tuple(centre)), True)
+                ctx.count('blur/moving gaze on one object/%s' % ('equi' if equi else 'planar'))
+                rec = {'fn': 'blur', 'size': [h, w], 'centre': centre, 'alpha': 0.2, 'mode': mode, 'equi': equi, 'moving_gaze': True}
+                try:
+                    out = obj.blur(img, 0.2, 0.2, 0.7, centre, mode, equi)
+                    ref = RadiallyVaryingBlur().blur(img, 0.2, 0.2, 0.7, centre, mode, equi)
+                except Exception as e:
+                    ctx.note('blur raised %r for gaze %s (equi=%s)' % (e, centre, equi))
+                    break
+                if out.shape != ref.shape or not torch.allclose(out, ref, atol=1e-6):
+                    ctx.violation('RadiallyVaryingBlur.blur(%s, equi=%s) on an object whose gaze has moved to %s differs from the result of a new object for the '
+                                  'same gaze (max difference %.3g): the foveation map of an earlier gaze is still in use'
+                                  % (mode, equi, centre, float((out - ref).abs().max()) if out.shape == ref.shape else float('nan')), rec,
+                                  {'fn': 'blur', 'what': 'moving_gaze', 'equi': equi, 'mode': mode})
+                    break
     __import__('harness.props.genfoveation', fromlist=['x']).check_generated_foveation(ctx)   # regenerated definitions vs /repo
 
 def replay(ctx, rep):
